@@ -134,7 +134,7 @@ def run(ctx):
     quick = ctx.quick()
     cases = H.corpus_cases(PID)
     ncorpus = len(cases)
-    for _ in range(900 if quick else 3000):
+    for _ in range(750 if quick else 3000):
         cases.append(gen_case(ctx.rng, quick))
     # the exhaustive single-save slice of C02 (arrangements and pure reorders at every site): direct oracle
     cases.extend(H.exhaustive_cases(1, 4) if quick else H.exhaustive_cases(3, 5))
